@@ -697,6 +697,10 @@ HLIstaccess(accrec_t *access_rec, int16 acc_mode)
         UINT16DECODE(p, info->link_ref);
     }
 
+    /* a header that was only partly written (or is damaged) must not be trusted */
+    if (info->length < 0 || info->block_length <= 0 || info->number_blocks <= 0 || info->link_ref == 0)
+        HGOTO_ERROR(DFE_BADLEN, FAIL);
+
     /* get the block length and number of blocks */
     access_rec->block_size = info->block_length;
     access_rec->num_blocks = info->number_blocks;
